@@ -91,9 +91,9 @@ func directedConcurrent() input {
 }
 
 func gen(r *hx.Rand, tier string) []json.RawMessage {
-	n := 300
+	n := 220
 	if tier == "thorough" {
-		n = 6000
+		n = 3000
 	}
 	out := []json.RawMessage{hx.J(directedUnaligned()), hx.J(directedLarger()), hx.J(directedConcurrent())}
 	for len(out) < n {
